@@ -338,6 +338,9 @@ impl<C: CrcCalculator> Encapsulator<C> {
             return Err(EncapError::ErrorProtocolType);
         }
 
+        // the re-use state is only kept if the encapsulation succeeds
+        let saved_last_label = self.last_label;
+        let saved_current_consecutive = self.re_current_consecutive;
         label = self.check_label_re_use(label);
         let label_len = label.len();
         let pdu_len = pdu.len();
@@ -365,12 +368,16 @@ impl<C: CrcCalculator> Encapsulator<C> {
             // check the buffer size
             // if it cannot write at least more than the header
             if buffer_len < min_header_len {
+                self.last_label = saved_last_label;
+                self.re_current_consecutive = saved_current_consecutive;
                 return Err(EncapError::ErrorSizeBuffer);
             }
 
             // check the metadata len
             // if the protocol cannot handle such large amounts of data
             if TOTAL_LEN_MAX < pdu_len + PROTOCOL_LEN + label_len {
+                self.last_label = saved_last_label;
+                self.re_current_consecutive = saved_current_consecutive;
                 return Err(EncapError::ErrorPduLength);
             }
 
@@ -648,6 +655,9 @@ impl<C: CrcCalculator> Encapsulator<C> {
             return Err(EncapError::ErrorInvalidLabel);
         }
 
+        // the re-use state is only kept if the encapsulation succeeds
+        let saved_last_label = self.last_label;
+        let saved_current_consecutive = self.re_current_consecutive;
         label = self.check_label_re_use(label);
         let label_len = label.len();
         let pdu_len = pdu.len();
@@ -676,12 +686,16 @@ impl<C: CrcCalculator> Encapsulator<C> {
             // check the buffer size
             // if it cannot write at least more than the header
             if buffer_len < min_header_len {
+                self.last_label = saved_last_label;
+                self.re_current_consecutive = saved_current_consecutive;
                 return Err(EncapError::ErrorSizeBuffer);
             }
 
             // check the metadata len
             // if the protocol cannot handle such large amounts of data
             if TOTAL_LEN_MAX < pdu_len + PROTOCOL_LEN + label_len {
+                self.last_label = saved_last_label;
+                self.re_current_consecutive = saved_current_consecutive;
                 return Err(EncapError::ErrorPduLength);
             }
 
@@ -690,6 +704,8 @@ impl<C: CrcCalculator> Encapsulator<C> {
             let frag_header_len =
                 FRAG_ID_LEN + TOTAL_LENGTH_LEN + PROTOCOL_LEN + label_len + total_len_extensions;
             if GSE_LEN_MAX < frag_header_len {
+                self.last_label = saved_last_label;
+                self.re_current_consecutive = saved_current_consecutive;
                 return Err(EncapError::ErrorSizeBuffer);
             }
 
